@@ -329,6 +329,16 @@ def body_end_to_end(ctx, kind):
     else:
         ctx.check(type(ds.ems).__name__ == expect, 'the accessor binds the detected convention')
     if kind in ('shoc_simple', 'shoc_standard') and not removed:
+        # detection is about the content of the dataset: a copy to which another convention was bound by hand is still
+        # detected as what its content says
+        from emsarray.conventions.grid import CFGrid2D as _CF2
+        twin = ds.copy()
+        names = dict(longitude='x_centre', latitude='y_centre') if kind == 'shoc_standard' else {}
+        try:
+            _CF2(twin, **names).bind()
+            ctx.check(get_dataset_convention(twin) is cls, 'equal content gives the same class, whatever convention was bound by hand')
+        except Exception as e:
+            ctx.check(False, f'binding a generic CF convention by hand to a SHOC dataset works ({type(e).__name__})')
         from emsarray.conventions.grid import CFGrid2D
         ctx.check(CFGrid2D.check_dataset(ds) is not None, 'a SHOC dataset is also a CF grid (lower specificity)')
         ctx.check(not type(ds.ems).__name__.startswith('CFGrid'), 'a SHOC dataset is never bound as a generic CF grid')
